@@ -25,6 +25,9 @@ OPS = {
     "ro_prop_setter": ("property", lambda o: setattr(o, "ro_prop", 1)),   # setter added by the subclass to an inherited getter
     "del_prop": ("property", lambda o: delattr(o, "del_prop")),
     "static": ("staticmethod", lambda o: o.static()),
+    "static0": ("staticmethod", lambda o: (o.static0(5), type(o).static0(6))),     # inherited, takes an argument
+    "classm0": ("classmethod", lambda o: (o.classm0(), type(o).classm0())),
+    "apub": ("function", lambda o: _run_co(o.apub())),                             # an `async def` public method
     "classm": ("classmethod", lambda o: o.classm()),
     "__setattr__": ("function", lambda o: setattr(o, "y", 2)),
     "assign": ("assign", lambda o: setattr(o, "z", 3)),          # attribute assignment without own __setattr__
@@ -50,10 +53,22 @@ SRC = {
     "ro_prop_setter": "@L0.ro_prop.setter\ndef ro_prop(self, v): pass",
     "del_prop": "def _dp_get(self): return 1\ndef _dp_del(self): pass\ndel_prop = property(fget=_dp_get, fdel=_dp_del)",
     "static": "@staticmethod\ndef static(): return 1",
+    "static0": "@staticmethod\ndef static0(v): return v",
+    "classm0": "@classmethod\ndef classm0(cls): return 1",
+    "apub": "async def apub(self): return 1",
     "classm": "@classmethod\ndef classm(cls): return 1",
     "__setattr__": "def __setattr__(self, k, v): object.__setattr__(self, k, v)",
     "assign": "",
 }
+
+
+def _run_co(co):
+    try:
+        co.send(None)
+    except StopIteration as e:
+        return e.value
+    co.close()
+    raise RuntimeError("coroutine suspended")
 
 
 def _indent(src, n=4):
